@@ -68,11 +68,12 @@ def _mentions(term, ids) -> bool:
     return hit
 
 
-def alpha_eq(a, b, memo=None) -> bool:
+def alpha_eq(a, b) -> bool:
     """structural equality of two terms modulo the NAMES of bound variables (z3 keeps binder names in the AST, and the
-    engine names binders with a global counter: the same clause evaluated twice gives two different ASTs)"""
-    if memo is None:
-        memo = {}
+    engine names binders with a global counter: the same clause evaluated twice gives two different ASTs).
+    The visited-pair table is optimistic (a pair is entered when it is first seen), which is only right within ONE
+    comparison — any mismatch makes the whole comparison fail — so it must never be shared between comparisons."""
+    memo = {}
     stack = [(a, b)]
     while stack:
         x, y = stack.pop()
@@ -185,8 +186,7 @@ class Executor(ExprMixin, StmtMixin, LoopMixin):
         if not expect_fail and z3.is_quantifier(goal):
             # P |- P: a quantified goal that is literally one of the hypotheses (up to binder names) is closed here — the
             # solvers would otherwise have to re-derive the formula from itself by instantiation
-            memo = {}
-            if any(z3.is_quantifier(h) and alpha_eq(goal, h, memo) for h in hyps):
+            if any(z3.is_quantifier(h) and alpha_eq(goal, h) for h in hyps):
                 goal = z3.BoolVal(True)
         name = f"{self.label_prefix}{self.fn_name}.{kind}.{label}"
         k = self._names.get(name, 0)
@@ -716,6 +716,12 @@ class Executor(ExprMixin, StmtMixin, LoopMixin):
             if ret_ty is not None:
                 v = coerce(v, ret_ty)
             res = v if res is None else ops.ite(c, v, res)
+        if res is None:
+            # every path of the body is infeasible under the current path condition (e.g. a spec function inlined under a
+            # contradictory guard): the value is irrelevant, any value of the right type will do
+            if ret_ty is not None:
+                return Val(ret_ty, fresh(ret_ty, "dead"))
+            raise Unsupported("inlined function has no feasible path here", node)
         return res
 
     # ---- spec functions -----------------------------------------------------------------------------
